@@ -135,14 +135,36 @@ pub fn run(ctx: &mut Ctx) {
             }
             // ---- prefix (embedded at the end of another file): whole container in one file
             if mode == Mode::OneFile && extra == 0 {
+                let whole = std::fs::read(&entry).unwrap();
+                let mut prefixes: Vec<(String, Vec<u8>)> = vec![];
                 for plen in [0usize, 1, 63, 64, 4096, 1 + crng.below(3000) as usize] {
-                    let pdir = root.join(format!("prefix{}", plen));
+                    prefixes.push((format!("{}", plen), crng.bytes(plen)));
+                }
+                // prefixes which *look like* the start of a Jubako file without being one: a truncated
+                // copy of this very container, a pack header whose CRC is wrong, a bare magic+vendor+
+                // version stub followed by arbitrary bytes (every pack kind letter), text
+                prefixes.push(("truncated-self-40".into(), whole[..40.min(whole.len())].to_vec()));
+                let mut h = whole[..64.min(whole.len())].to_vec();
+                if h.len() == 64 {
+                    h[30] ^= 0x55;
+                    prefixes.push(("header-bad-crc".into(), h));
+                }
+                for kind in [b'm', b'd', b'c', b'C'] {
+                    let mut stub = vec![b'j', b'b', b'k', kind];
+                    stub.extend_from_slice(&whole[4..10]);
+                    let slen = 10 + crng.below(200) as usize;
+                    stub.extend(crng.bytes(slen));
+                    prefixes.push((format!("stub-{}", kind as char), stub));
+                }
+                prefixes.push(("text".into(), b"#!/bin/sh\n# a launcher script followed by its archive\nexec viewer \"$0\"\n".to_vec()));
+                for (pname, mut b) in prefixes {
+                    let pdir = root.join(format!("prefix{}", pname));
                     std::fs::create_dir_all(&pdir).unwrap();
-                    let mut b = crng.bytes(plen);
-                    b.extend(std::fs::read(&entry).unwrap());
+                    b.extend_from_slice(&whole);
                     let out = pdir.join("embedded.bin");
                     std::fs::write(&out, b).unwrap();
-                    check_arrangement(ctx, case, &format!("prefix:{}", plen), &pdir, &out, &expected);
+                    check_arrangement(ctx, case, &format!("prefix:{}", pname), &pdir, &out, &expected);
+                    ctx.count(&format!("prefix_kind:{}", pname.split('-').next().unwrap_or("").trim_matches(char::is_numeric)));
                     narr += 1;
                 }
             }
